@@ -8,7 +8,7 @@ cp /verif/evidence/*.json $BK/ 2>/dev/null
 cd /repo && git apply $PATCH || { echo "cannot apply $PATCH"; rm -rf $BK; exit 2; }
 cd /verif
 for p in "$@"; do
-  out=$(bin/check $p 2>&1); rc=$?
+  if [ "${VERIF_EXT:-0}" = 1 ]; then out=$(bin/check $p --extended 2>&1); rc=$?; else out=$(bin/check $p 2>&1); rc=$?; fi
   echo "[$p rc=$rc] $(echo "$out" | grep -E 'VIOLATION|^OK|KNOWN' | head -3 | tr '\n' ' ')"
   echo "$out" | grep '^#' | head -2
 done
